@@ -131,6 +131,9 @@ func (n *navCtx) child(v proto.Message) string {
 		}
 		return fmt.Sprintf("r%d:%d", id, n.ids.ID(res))
 	}
+	if ext, ok := v.(*dtpb.Extension); ok && ext.GetUrl().GetValue() == noValueMarkerURL {
+		return fmt.Sprintf("x%d", n.ids.ID(v))
+	}
 	d := v.ProtoReflect().Descriptor()
 	if isChoiceMsg(d) {
 		r := v.ProtoReflect()
@@ -191,7 +194,25 @@ func (n *navCtx) describe(m proto.Message) string {
 		ft = strings.Join(fs, ";")
 	}
 	_, fromErr := system.From(m)
-	return fmt.Sprintf("%d|%s|%s|%s|%s|%s|%s", n.ids.ID(m), d.Name(), b(isDateLike(m)), b(isRef), refTok, b(fromErr == nil), ft)
+	return fmt.Sprintf("%d|%s|%s|%s|%s|%s|%s|%s", n.ids.ID(m), d.Name(), b(isDateLike(m)), b(isRef), refTok, b(fromErr == nil), b(hasNoValueMarker(m)), ft)
+}
+
+// the extension google/fhir's JSON parser puts on a primitive that has an id or extensions but no value (read off the
+// protos here, independently of the repository's own test for it)
+const noValueMarkerURL = "https://g.co/fhir/StructureDefinition/primitiveHasNoValue"
+
+func hasNoValueMarker(m proto.Message) bool {
+	fd := m.ProtoReflect().Descriptor().Fields().ByName("extension")
+	if fd == nil || !fd.IsList() || fd.Message() == nil || fd.Message().Name() != "Extension" {
+		return false
+	}
+	l := m.ProtoReflect().Get(fd).List()
+	for i := 0; i < l.Len(); i++ {
+		if ext, ok := l.Get(i).Message().Interface().(*dtpb.Extension); ok && ext.GetUrl().GetValue() == noValueMarkerURL {
+			return true
+		}
+	}
+	return false
 }
 
 func dateLikeString(m proto.Message) (string, bool) {
@@ -729,6 +750,28 @@ func runC02Valueless(c *Ctx) {
 				}
 			}
 			return o, strings.Join(parts, " ")
+		}
+		// the same fixtures through the navigation MODEL: every message of the resource, stepped into by each of its
+		// element names and by value / extension / id (the marker extension is described to the model as what it is)
+		{
+			nav := &navCtx{ids: NewIDTable()}
+			msgs := []proto.Message{r}
+			walkElementsRaw(r, func(parent proto.Message, fd protoreflect.FieldDescriptor, vals []proto.Message) { msgs = append(msgs, vals...) })
+			for _, m := range msgs {
+				if _, isAny := m.(*anypb.Any); isAny {
+					continue
+				}
+				names := []string{"value", "extension", "id", "url"}
+				d := m.ProtoReflect().Descriptor()
+				for i := 0; i < d.Fields().Len(); i++ {
+					if m.ProtoReflect().Has(d.Fields().Get(i)) {
+						names = append(names, d.Fields().Get(i).JSONName())
+					}
+				}
+				for _, nm := range names {
+					nav.runStep(c, nm, []proto.Message{m})
+				}
+			}
 		}
 		for _, e := range cs.paths {
 			_, urls := eval(e.path + ".extension.url")
